@@ -301,7 +301,7 @@ def cache(ctx):
     ts = _static(ctx, "_update_bounds_dict")
     sims = q.find_calls(ts, "LinearFourRates._sim_bounds")
     ok = len(sims) >= 1 and all(tuple(e.args) == (P("est_rate"), P("curr_denom")) for e in sims)
-    ctx.ob("AGREE-cache", "LinearFourRates._update_bounds_dict", "a miss simulates for the un-rounded (rate, denominator)", ok, "")
+    ctx.ob("AGREE-cache", "LinearFourRates._update_bounds_dict", "a miss simulates for the un-rounded (rate, denominator)", ok, "", firm=True)  # decided from the call's arguments alone
     # hit path returns the entry under both keys; every simulated result is stored under both keys
     leaves = [l for _c, l in q.ite_leaves(ts.retval)]
     hit = [l for l in leaves if (l.single_atom() or ("",))[0] == "sub"]
